@@ -259,7 +259,10 @@ def shape_key(a):
         return ("leaf", a["id"])
     if a.get("id"):
         return ("id", a["id"])
-    ch = tuple(sorted(map(repr, (shape_key(x) for x in a["args"]))))
+    args = list(a["args"])
+    if a["k"] in ("Imply", "Not") and args and args[0]["k"] in ("var", "str"):
+        args[0] = {"k": "All", "id": None, "args": [args[0]]}          # a bare condition / negated leaf is wrapped in All(leaf) by the library
+    ch = tuple(sorted(map(repr, (shape_key(x) for x in args))))
     k = a["k"]
     n = len(a["args"])
     norm = {"All": ("AL", n, "None"), "Any": ("AL", 1, "None")}.get(k)
@@ -304,7 +307,7 @@ def gen_case(rng, tier, ctx, i):
         rec = next_sweep(i, ctx.seed)
     else:
         o = recipes.Opts(depth=rng.choice([2, 3, 4]), maxfan=rng.choice([3, 3, 5, 6]), nleaf=rng.choice([3, 4, 6, 8]), p_int=0, p_share=0, p_copy=0.05,
-                         p_explicit=0.4, odd_ids=0)
+                         p_explicit=0.4, odd_ids=0, p_subclass=0.12)
         pool = None
         if rng.random() < 0.3:
             # leaf ids whose concatenations coincide ('a'+'bc' == 'ab'+'c'): different sub-formulas then get the same generated id
